@@ -22,7 +22,7 @@ RULE = (
     "plus distinct decoded words of length >= 3."
 )
 ASSUMPTIONS = ["oracle: vf/oracle/pins.py (Fractions); known finding K3 recognised only by buggy-model replay of the word matcher"]
-REQUIRED = ["calls.PinWords.pinword_to_perm", "calls.PinWordUtil.call", "calls.PinWords.sp_to_m", "calls.PinWords.m_to_sp", "calls.PinWords.quadrant",
+REQUIRED = ["env.shards_with_other_hashseed", "calls.PinWords.pinword_to_perm", "calls.PinWordUtil.call", "calls.PinWords.sp_to_m", "calls.PinWords.m_to_sp", "calls.PinWords.quadrant",
             "calls.PinWords.factor_pinword", "calls.PinWords.pinword_occurrences_sp", "calls.PinWords.pinword_contains", "tables.checked",
             "containment.decided", "containment.positive", "hook.numeral_pins", "hook.direction_pins", "aliasing.factor_list_mutated", "faults.injected", "long.factor_searches", "long.subpermutations_searched", "verylong.containment_decided", "ambient.perturbed_runs"]
 MIN_NONTRIVIAL = 500
@@ -408,6 +408,8 @@ def plan(tier, seed):
     specs += [{"name": f"contain-{i}", "kind": "contain", "wmax": wmax, "part": i, "parts": parts,
                "sample5": (400 if tier == "quick" else 5000) // parts, "sample6": (0 if tier == "quick" else 2000) // parts} for i in range(parts)]
     specs += [{"name": "ambient", "kind": "ambient"}, {"name": "verylong", "kind": "verylong"}]
+    # the same kind of work under another string-hash seed (sets of pin words are iterated in another order)
+    specs += [dict(specs[-3 - j], name=f"contain-hashseed-{j}", env={"PYTHONHASHSEED": str(4242 + 17 * j + seed)}) for j in range(2)]
     specs += [{"name": f"long-{i}", "kind": "long", "count": 40 if tier == "quick" else 400} for i in range(4 if tier == "quick" else 12)]
     return specs
 
